@@ -121,9 +121,36 @@ def classify(ctx, o, family, boundary, case):
 SUSPECTS = []
 
 
+CANARY = {"n": 0}
+
+
+def canary(ctx):
+    """After rejected inputs the library must still answer known-good requests correctly."""
+    import jsonpath
+
+    CANARY["n"] += 1
+    if CANARY["n"] % 40:
+        return
+    ok = True
+    try:
+        ok = ok and jsonpath.findall("$.a[?@.b > 1].b", {"a": [{"b": 1}, {"b": 2}]}) == [2]
+        ok = ok and jsonpath.findall("$..['x','y'] | ^[?@.z]", {"x": 1, "k": {"y": 2}, "z": 0}) == [1, 2, {"x": 1, "k": {"y": 2}, "z": 0}]
+        ok = ok and jsonpath.JSONPointer("/a~1b/0").resolve({"a/b": [7]}) == 7
+        ok = ok and str(jsonpath.JSONPointer("/0/1").to("1+2/x")) == "/2/x"
+        ok = ok and jsonpath.patch.apply([{"op": "add", "path": "/l/-", "value": 1}, {"op": "move", "from": "/a", "path": "/b"}], {"l": [], "a": 1}) == {"l": [1], "b": 1}
+    except Exception as e:  # noqa: BLE001
+        ok = False
+        ctx.violation("library-stops-working-after-earlier-inputs:%s" % type(e).__name__, {"kind": "canary"}, {"error": "%s: %s" % (type(e).__name__, e)})
+        return
+    ctx.count("canary_checks")
+    if not ok:
+        ctx.violation("library-gives-wrong-answers-after-earlier-inputs", {"kind": "canary"}, {})
+
+
 def query_case(ctx, text, docs):
     import jsonpath
 
+    canary(ctx)
     case = {"kind": "query", "text": text, "docs": docs}
     ctx.evaluation()
     if nesting(text) > 60 or len(text) > 600:
@@ -414,6 +441,10 @@ def replay(case, ctx):
 
 def _replay(case, ctx):
     kind = case.get("kind")
+    if kind == "canary":
+        CANARY["n"] = 39
+        canary(ctx)
+        return
     if kind == "query":
         query_case(ctx, case["text"], [case["doc"]] if "doc" in case else case["docs"])
     elif kind in ("pointer", "relative"):
